@@ -383,6 +383,11 @@ def gen_floor(rng, idx, big=False, groups=True, congested=False, serial=False):
                     pred = rng.choice(['always', 'qge:2', 'qlt:2', 'vge:6', 'vlt:6', 'never'])
                     g = B.dev('gate', up=','.join(map(str, ups)), pred=pred)
                     ups = [g]
+                    if rng.random() < 0.15:
+                        # a chain of pass-through gates (notifications have to travel through all of them)
+                        for _ in range(rng.randint(2, 5)):
+                            g = B.dev('gate', up=str(g), pred='always')
+                        ups = [g]
                 kind = rng.choice(['handler', 'processor', 'processor', 'buffer', 'buffer'] +
                                   (['batcher', 'batcher'] if batches or (not serial and rng.random() < 0.15) else []))
                 kw = dict(up=','.join(map(str, ups)))
@@ -432,7 +437,13 @@ def gen_floor(rng, idx, big=False, groups=True, congested=False, serial=False):
     if not serial:
         for _ in range(rng.randint(0, 10 if not big else 20)):
             c = rng.random()
-            if procs and c < 0.22:
+            if rng.random() < 0.04:
+                # the machine-only operations on a device that is not a machine (an error, nothing happens)
+                ops.append([rng.choice(['schedfailrel', 'shutdown', 'restore']), str(rng.choice(anydev))] +
+                           (['0'] if ops and False else []))
+                if ops[-1][0] == 'schedfailrel':
+                    ops[-1].append('0')
+            elif procs and c < 0.22:
                 ops.append(['schedfailrel', str(rng.choice(procs)), str(rng.choice([0, 0, 1, 4]))])
             elif procs and c < 0.32:
                 ops.append(['shutdown', str(rng.choice(procs))])
